@@ -777,6 +777,26 @@ def hunt_ops(rng):
     return ops
 
 
+def fixed_reuse_scenarios():
+    """Deterministic identifier re-use on dd.autoref: cache one conjunction,
+    look at it (print / fetch), overwrite it, collect, build other
+    conjunctions of the same shape (the first gets the freed identifier),
+    look again."""
+    decl = dict(x=(0, 3), y=(0, 3))
+    conj = [rf'x = {a} /\ y = {b}' for a, b in
+            ((1, 2), (0, 0), (2, 1), (3, 3), (1, 1), (2, 3))]
+    out = []
+    for first in range(3):
+        for look in (('print',), ('fetch', 0)):
+            others = [j for j in range(len(conj)) if j != first][:4]
+            ops = [('cache', 'env', 'init', first), look,
+                   ('drop', 'env', 'init'), ('gc',)]
+            ops += [('alloc', j, True) for j in others]
+            ops += [('fetch', j) for j in range(len(others))] + [('print',)]
+            out.append((decl, conj, ops))
+    return out
+
+
 def run_cache(ops, exprs, backend, translator, decl):
     cr = CacheRun(backend, translator, decl)
     aut = cr.aut
@@ -938,10 +958,14 @@ def correspond(ctx):
     # identifier re-use happens on dd.autoref (freed indices are handed out
     # again); many small scenarios make it occur on every run
     n_hunt = 500 if thorough else 110
-    for i in range(n_hunt):
-        decl = dict(x=(0, 3), y=(0, 3), z=(0, 1))
-        exprs = cache_exprs(rng, sorted(decl), 45)
-        ops = hunt_ops(rng)
+    fixed = fixed_reuse_scenarios()
+    for i in range(n_hunt + len(fixed)):
+        if i >= n_hunt:
+            decl, exprs, ops = fixed[i - n_hunt]
+        else:
+            decl = dict(x=(0, 3), y=(0, 3), z=(0, 1))
+            exprs = cache_exprs(rng, sorted(decl), 45)
+            ops = hunt_ops(rng)
         cfg = ('autoref', 'recursive' if i % 2 else 'iterative')
         try:
             cr = run_cache(ops, exprs, cfg[0], cfg[1], decl)
